@@ -234,3 +234,61 @@ add("C06",
     "stated_not_proved: the generation-checking flavour's snapshot argument (VerifyingAdapterRegistry); for it verifyingChanged_fresh is proved and the oracle judges every observed state. "
     "Guard: G-acyclic with the size bound the model's recursion fuel stands for (WF).",
     "Lean 4 proof (history invariant, cascade reachability) + differential correspondence + flat-specification oracle + never-queried-twin stream", "6/C06")
+
+add("C01",
+    "Theorems over ALL declaration histories (ZI/Props/C01Hist.lean, on ZI.Classes2 = the declarations model on the proved graph model): C01_exact — after any "
+    "well-formed history of interface / class / instance creations, classImplements / classImplementsOnly / classImplementsFirst / directlyProvides / "
+    "alsoProvides / noLongerProvides calls and queries, in any order, `I in implementedBy(cls).__sro__` holds exactly when I is in Impl(cls) and "
+    "`I in providedBy(ob).__sro__` exactly when I is in Prov(ob), where Impl / Prov are the statement's own set-level recursion over an abstract state that has "
+    "no graph, no specification objects and no caches (declared on the class and not redundant when declared, inherited from the bases unless an *only* form cut "
+    "the inheritance, declared on the object, closed upwards under extension); proved by a simulation (sim_step / sim_run: every class-level call is a sequence of "
+    "graph operations that keep C02's invariant; class specifications and instance declarations have exactly the base lists the abstract state prescribes; the "
+    "shared weak Provides cache only returns declarations whose bases are the fresh ones) and C02's reachability theorem. C01_sandwich (+ _upper / _lower / "
+    "C01_kept_persists): everything reported was named or inherited, and everything named that was not redundant at the moment of the call is reported for as "
+    "long as the object is not re-declared. C01_independent / C01_independent_real: a declaration on one object changes no other instance's answer and no class's; "
+    "a class declaration changes only classes that still inherit from it. C01_noLonger_error (ValueError iff still provided). Kernel-checked witnesses that the "
+    "pinned factory violated the statement and the repaired one does not. ZI.Classes (the executable compared with both twins on every run) and ZI.Classes2 run in "
+    "lock step in the driver together with the abstract state: any disagreement between the two models, or between the abstract answer and the model on a history "
+    "inside the theorem's guards, is printed on that line and breaks the correspondence; the evidence reports how many generated operations lie inside the guards. "
+    "Every implementation answer is also judged by the sandwich oracle, the agreement of the four query forms and independence of unrelated objects.",
+    "Guards of C01_exact (decided per operation by the driver with the theorem's own predicate): created things are new, referenced things exist, base lists and the "
+    "argument lists of direct declarations are duplicate-free (G-nodup, inherited from C02's WFOp; histories outside it are judged by the oracle only), interfaces "
+    "are not re-based (C02 covers that), recursion fuel >= number of classes. Only the repaired factory is covered by the history theorems.",
+    "Lean 4 proof (simulation of an abstract set-level specification over all histories) + differential correspondence of two lock-step models + sandwich oracle", "6/C01")
+add("C04",
+    "Theorems on the registry model that is compared with the real code every run (ZI.Registry.lookupRec over depth-indexed containers, uncachedLookup over "
+    "`ro`): lookupRec_eq_first (the nested _lookup walk with its `if comps:` short-cuts = first hit over the applicable paths enumerated in lexicographic order of "
+    "positions in the resolution orders, then the extendors order), mem_rpaths, C04_sound, C04_complete (default iff nothing applicable), C04_best (every path before "
+    "the winner has nothing under the name), rpaths_first_position, C04_chain (first registry of `ro` with an answer wins). ZI/Props/C04Ext.lean, over ALL histories "
+    "of the ten registry operations, no guard: C04_extInv / C04_extendors_content (`_extendors[i]` lists exactly the provided interfaces with a live `_provided` "
+    "count that extend i), C04_provided_count_ne_zero, C04_count_ge + registered_live / subscribed_live (every stored adapter / subscriber is counted, so the "
+    "KeyError / negative-count branches are unreachable and nothing stored can be missing from the extendors), C04_extendors_nodup, C04_extendors_order (nothing is "
+    "listed before an interface it strictly extends: add_extendor's insertion keeps the list most-general-first; needs only transitivity and antisymmetry of "
+    "extension, each shown necessary by a kernel-checked counterexample), C04_most_general / C04_most_general_lex / C04_most_general_lookup (the answer of an "
+    "uncached lookup comes from the first registry of `ro` that answers; inside it the required components are ordered first and, among the live provided "
+    "interfaces that bind the name under the winning required path, the winner strictly extends none — the most general wins among comparable ones), C04_guard, "
+    "C04_lookup_complete (a stored applicable adapter is never missed by the extendors short-cut). With C05_registry_transparent_lookup the cached lookup equals "
+    "the uncached one in every reachable state. Every implementation answer is also judged by an independent flat-specification oracle.",
+    "Note: `_provided` counts registrations made, not entries stored (re-registering another value under a live key adds to the count without adding an entry, as in "
+    "the code), so 'live' in these theorems is the code's own notion. None keys are registered as Interface (convNone), which C03_valid puts in every __sro__. The "
+    "specification graph is static in the registry model; changes of it are covered by C05's abstract machine and the world correspondence.",
+    "Lean 4 proof (nested walk = lexicographic argmin, extendors invariant over all histories, most-general-first) + differential correspondence + flat-specification oracle", "6/C04")
+
+add("C09",
+    "Theorems on the registry model that is compared with the real code (ZI/Props/C09.lean, ZI/Props/C09Reg.lean). Containers: find_update / find_remove / "
+    "remove_flag (after an update only the addressed path changes; the addressed leaf becomes f a or disappears if that is empty; pruning an emptied container never "
+    "loses a sibling), for all depths and paths. WHOLE REGISTRY, no hypothesis on the world: registered_register (after register() the addressed key reads the new "
+    "value — the old one if the identical object was already there, a no-op — and every other key of every registry, arity, path and name is unchanged), "
+    "registered_unregister (removes the entry only if that very object is registered or no value is given; everything else unchanged), subsFind_subscribe / "
+    "subsLeaf_unsubscribe / subsFind_unsubscribe_other (the addressed subscriber list grows by the subscriber at the end / loses every entry equal to the given one / "
+    "is emptied; every other list is literally unchanged), subscribed_eq, changed_sameData (change notification, of either flavour and any cascade depth, touches no "
+    "registration data). OVER ALL HISTORIES of the ten registry operations: C09_pruned (no empty leaf or container is ever left), C09_provided_le (unique keys "
+    "everywhere; every stored entry is counted in _provided; no stored count is 0), C09_provided (the counts are exact when no register() replaces a different "
+    "object under an occupied key; provided_leak is the kernel-checked witness that such a replacement over-counts, as the code does — harmless, see C04). "
+    "ENUMERATIONS: qsort_perm (Array.qsort is a permutation, proved from its workers), mem_allRegistrations_iff / allRegistrations_registered (allRegistrations() "
+    "lists exactly the bindings registered() returns), allSubscriptions_leaf / count_allSubscriptions (allSubscriptions() restricted to a key is exactly that "
+    "subscriber list, order and multiplicity included). REBUILD: C09_rebuild (in every reachable world rebuild() changes no answer of registered(), no subscriber "
+    "list, and no other registry). The model is compared with both twins; registered / subscribed / allRegistrations / allSubscriptions, rebuild() and replay clones "
+    "are judged against a flat map after every step.",
+    "The specification graph is static in this model. Replaying the enumerations into an EMPTY registry (clones) is judged by the oracle; the theorem covers rebuild().",
+    "Lean 4 proof (nested containers refine a flat map, whole-registry read-after-write laws, history invariants, enumerations, rebuild) + differential correspondence + flat-map oracle", "6/C09")
